@@ -25,14 +25,23 @@ def run(ck):
         if len(g["vals"]) >= 6:
             groups.append({"vals": g["vals"], "C": g["C"], "calls": [pcall("bc", "list")]})
     ck.cat("bags_of_6_to_9_items", sum(1 for g in B if len(g["vals"]) >= 6))
-    fam = gen.pack_families(ck.rng, 260 if q else 5000, maxn=11 if q else 12, minv=1)
+    # candidates are cheap; the oracle budget goes to the instances on which best-fit-decreasing misses the lower bound (textbook re-implementation, not the
+    # library's), i.e. where the search of bin completion actually runs
+    from ..textbook import bfd_count, lb_count
+    cand = gen.pack_families(ck.rng, 4200 if q else 50000, maxn=11 if q else 12, minv=1)
+    for g in cand:
+        g["vals"] = [max(1, v) for v in g["vals"]][:12]
+    hard = [g for g in cand if bfd_count(g["vals"], g["C"]) > lb_count(g["vals"], g["C"])]
+    easy = [g for g in cand if not bfd_count(g["vals"], g["C"]) > lb_count(g["vals"], g["C"])]
+    fam = hard[:450 if q else 4500] + easy[:100 if q else 500]
+    ck.cat("family_instances_where_the_search_runs", len(hard[:450 if q else 4500]))
     for g in fam + WITNESS:
         g = dict(g)
         g["vals"] = [max(1, v) for v in g["vals"]][:12]
         g["calls"] = [pcall("bc", "list")]
         groups.append(g)
     ck.rule = ("TLC enumerates every arrival sequence of <=5 values in 1..C for C in {4,6}; bin-completion executed on each with output types "
-               "PartitionAndSumsTuple, BinCount and Sums; every bag of <=8 values in 2..7 (C=12) and 2..6 (C=10), where the search's branching first matters; plus seeded families of 6-12 items (uniform, small, triplet, half-size, exact fills) on which "
+               "PartitionAndSumsTuple, BinCount and Sums; every bag of <=8 values in 2..7 (C=12) and 2..6 (C=10), where the search's branching first matters; plus seeded families of 6-12 items (uniform, small, triplet, half-size, exact fills, C/6..C/2; selected for) on which "
                "best-fit-decreasing often misses the lower bound so the search runs; minimum number of bins recomputed in TLA+ (Oracles.MinBins, subset DP). "
                "non-trivial = distinct (sequence, C) with >=2 items")
     r = ck.mc("OracleX", "CONSTANTS MaxN = 5 MaxV = 4 MaxK = 1 Cs = {4, 6}\nINIT Init\nNEXT Next\nINVARIANT MinBinsAgrees\n",
@@ -40,7 +49,6 @@ def run(ck):
     if r.violated:
         raise core.Machinery("oracle cross-validation failed: MinBins")
     traces = run_pack_groups(ck, groups, {"C04"}, "C04 minimum number of bins", chunk=1500)
-    from ..textbook import bfd_count, lb_count
     for t in traces:
         if bfd_count(t["vals"], t["C"]) > lb_count(t["vals"], t["C"]):
             ck.cat("search_ran_beyond_bfd")
